@@ -38,15 +38,20 @@ def apply_step(sp, st):
         w = sp.waveset
         return None if w is None else w.value
     if k == 'integrate':
-        return sp.integrate(integration_type='trapezoid').value
+        # `analytical` is only requested while z != 0: a redshifted model has no closed form, so the documented
+        # fallback makes it the same trapezoid computation
+        return sp.integrate(integration_type='analytical' if st.get('analytical') else 'trapezoid').value
     raise KeyError(k)
 
 
 def impl_call(case):
     sp = O.eval_expr(case['prim'])
     outs = []
+    twins = {}
     for st in case['steps']:
         outs.append(guarded(lambda: apply_step(sp, st)))
+        if st['do'] == 'integrate' and st.get('analytical'):
+            twins[len(outs) - 1] = guarded(lambda: apply_step(sp, {'do': 'integrate'}))
     # oracle data: a fresh object with the final attribute values, and the rest-frame object
     final_z, final_t = case['final']
     if 'prim' in case['prim']:
@@ -69,7 +74,7 @@ def impl_call(case):
         return {'vals': obj(xs).value, 'waveset': None if w is None else w.value,
                 'integral': None if w is None else obj.integrate(integration_type='trapezoid').value}
     extra = {'live': guarded(lambda: probe(sp)), 'fresh': guarded(lambda: probe(O.eval_expr(fresh_desc))),
-             'z_attr': guarded(lambda: [float(sp.z), sp.z_type])}
+             'z_attr': guarded(lambda: [float(sp.z), sp.z_type]), 'twins': twins}
 
     def rest_probe():
         rest = O.eval_expr(rest_desc)
@@ -107,6 +112,14 @@ def compare(case, o, m):
 # ------------------------------------------------------------------ oracle
 def oracle(rep, case, out):
     steps, outs = case['steps'], out['ok']
+    for i, tw in (out.get('_extra', {}).get('twins') or {}).items():
+        o = outs[int(i)]
+        if 'ok' in o and 'ok' in tw and o['ok'] is not None and tw['ok'] is not None:
+            if abs(o['ok'] - tw['ok']) > 1e-12 * abs(tw['ok']):
+                rep.oracle_fail('integrate:analytical_while_redshifted', 'analytical request on a redshifted source gave %r, the trapezoid '
+                                'computation it must fall back to gives %r' % (o['ok'], tw['ok']), case, o)
+        elif ('err' in o) != ('err' in tw):
+            rep.oracle_fail('integrate:analytical_while_redshifted:outcome', 'analytical %s vs trapezoid %s' % (o, tw), case, o)
     for st, o in zip(steps, outs):
         if st['do'] in ('set_z_bad',) or (st['do'] == 'set_ztype' and st['t'] not in ('wavelength_only', 'conserve_flux')):
             if o.get('err') != 'SynphotError':
@@ -206,10 +219,13 @@ def gen_case(rng, K, maxlen):
             steps.append({'do': 'set_ztype', 't': rng.choice(BAD_T)})
         elif r < 0.85:
             steps.append({'do': 'sample', 'xs': xs})
-        elif r < 0.93:
+        elif r < 0.9:
             steps.append({'do': 'waveset'})
         else:
-            steps.append({'do': 'integrate'})
+            st = {'do': 'integrate'}
+            if z != 0 and rng.random() < 0.6:
+                st['analytical'] = True
+            steps.append(st)
     return {'op': 'z_history', 'const': K, 'prim': prim, 'steps': steps, 'final': [q(z), t], 'probe': xs}
 
 
